@@ -144,7 +144,26 @@ def natural_run(tdgl, p, base_tmp=None):
     orig_sfps = TDGLSolver.__dict__["solve_for_psi_squared"]
     evals = []
 
+    class _InterruptingOperator:
+        """Stands in for the covariant Laplacian in ONE implicit evaluation: the product with psi raises
+        KeyboardInterrupt — a Ctrl-C that lands in the middle of the solver's innermost computation."""
+
+        def __init__(self, inner):
+            self._inner = inner
+
+        def __matmul__(self, other):
+            raise KeyboardInterrupt()
+
+        def __getattr__(self, name):
+            return getattr(self._inner, name)
+
     def w_sfps(*args, **kw2):
+        if (fault and not fired["done"] and fault["where"] == "update" and fault.get("at") == "inside"
+                and st.get("cur_i") == fault["i"] and st["stage"] == fault["stage"] and "psi_laplacian" in kw2):
+            fired["done"] = True
+            events.append({"ev": "update", "i": fault["i"], "outcome": fault["kind"], "at": "pre"})
+            st["inside_fault_at"] = fault["i"]
+            kw2 = dict(kw2, psi_laplacian=_InterruptingOperator(kw2["psi_laplacian"]))
         r = orig_sfps.__func__(*args, **kw2)
         evals.append((float(kw2["dt"]) if "dt" in kw2 else None, r is not None))
         return r
@@ -204,6 +223,7 @@ def natural_run(tdgl, p, base_tmp=None):
         if st["calls"] > 0 and i == 0 and st["stage"] == "thermal" and float(state["time"]) == 0.0 and st["th_n"] > 0:
             st["stage"] = "sim"
         stage = st["stage"]
+        st["cur_i"] = i
         if st["calls"] == 0:
             hashes[state_hash(kw)] = 0
         st["calls"] += 1
@@ -216,7 +236,8 @@ def natural_run(tdgl, p, base_tmp=None):
         try:
             res = orig_update(self, state, running_state, dt_in, **kw)
         except BaseException as e:
-            events.append({"ev": "update", "i": i, "outcome": "Exc:" + type(e).__name__, "at": "pre"})
+            if not (isinstance(e, KeyboardInterrupt) and st.pop("inside_fault_at", None) == i):    # (already logged where it was raised)
+                events.append({"ev": "update", "i": i, "outcome": "Exc:" + type(e).__name__, "at": "pre"})
             raise
         used = float(res[0])
         if fault and not fired["done"] and fault["where"] == "update" and fault["i"] == i and fault["stage"] == stage and fault["at"] == "post":
